@@ -275,3 +275,42 @@ def rerun_case(ctx, cfg, b):
         k = next(k for k in F if F[k] != P1[k])
         ctx.pred_fail("determinism-same-seed", f"two objects built with the same seed produced different {k} (the second one was built after two other objects had been run)", case,
                       observed={"run1": P1[k] if k != "sched" else P1[k][:1], "run2": F[k] if k != "sched" else F[k][:1]}, required="bit-identical")
+
+
+# ---------------------------------------------------------------------------------------
+# batcher-rng: every kind of value handed to SimpleBatcher(rng=…) (open end of growth round 5)
+
+BATCHER_RNG_VALUES = [None, 0, 3, 2 ** 40 + 1, -1, -7, 1.5, 2.0, "a", [1], {"x": 1}]
+
+
+def run_batcher_rng_stream(ctx, drv):
+    """accept / reject (exception TYPE) of `SimpleBatcher(num, b, rng=v)` and of the `rng` setter on a live batcher vs the model's
+    `batcherRngCheck`; a rejected assignment must leave the batcher usable (tie only — the property gives no verdict on malformed seeds)"""
+    import numpy as np
+    from quantem.diffractive_imaging.ptycho_utils import SimpleBatcher
+    from props import c09 as base
+    for v in BATCHER_RNG_VALUES:
+        case = {"stream": "batcher-rng", "value": v if not isinstance(v, dict) else "dict"}
+        ctx.count()
+        ctx.dist["batcher-rng:" + type(v).__name__] += 1
+        ctx.mark(("batcher-rng", repr(v)))
+        try:
+            B = SimpleBatcher(7, 3, rng=v, val_ratio=0.3, val_mode="random")
+            impl = "accepted"
+            if not isinstance(B.rng, np.random.Generator) or sorted(int(i) for x in B for i in x) != sorted(int(i) for i in B.train_indices):
+                impl = "accepted-but-unusable"
+        except Exception as e:  # noqa
+            impl = type(e).__name__
+        live = SimpleBatcher(7, 3, rng=11)
+        try:
+            live.rng = v
+            impl2 = "accepted"
+        except Exception as e:  # noqa
+            impl2 = type(e).__name__
+        if sorted(int(i) for x in live for i in x) != list(range(7)):
+            impl2 += "-then-unusable"
+        m = drv.ask({"op": "batcher_rng", "value": v if not isinstance(v, (list, dict)) else [1]})
+        if "ok" not in m:
+            raise base.HarnessError(f"driver error {m}")
+        if m["ok"] != impl or m["ok"] != impl2:
+            ctx.disagree("batcher-rng", case, m["ok"], {"constructor": impl, "setter": impl2}, note="SimpleBatcher(rng=v) / batcher.rng = v: accepted or exception type vs batcherRngCheck")
